@@ -165,7 +165,9 @@ def epsilon_cycle(prog: Sequence[Instr]) -> Optional[List[int]]:
         todo.extend(_eps_successors(prog, pc, True))
         if op in (CHAR, SET, NOTSET, ANY):
             todo.append(pc + 1)
-    # cycle detection over jump/split edges (``end`` always moves forward)
+    # cycle detection over the non-consuming edges: jump, split, and ``end`` (which
+    # continues at pc + 1 without consuming once the input is exhausted, so that
+    # ``($|a)*`` loops through it at the end of the input)
     WHITE, GREY, BLACK = 0, 1, 2
     colour = {pc: WHITE for pc in reach}
     for start in sorted(reach):
@@ -177,7 +179,7 @@ def epsilon_cycle(prog: Sequence[Instr]) -> Optional[List[int]]:
         path.append(start)
         while stack:
             pc, i = stack[-1]
-            succ = [s for s in _eps_successors(prog, pc, False) if s in colour]
+            succ = [s for s in _eps_successors(prog, pc, True) if s in colour]
             if i < len(succ):
                 stack[-1] = (pc, i + 1)
                 nxt = succ[i]
